@@ -126,7 +126,9 @@ pub fn rand_instance(r: &mut Rng, o: &InstOpts) -> Inst {
         if o.with_removed && r.chance(1, 3) {
             removed.push(cid);
             let rp = if r.chance(1, 2) { json!([["a", "1"], ["b", "x"]]) } else { json!([]) };
-            removed_json.push(json!({"c": [c], "reason": format!("reason{}", r.below(3)), "rparams": rp}));
+            // the removal reason is free text; the empty string is a legal one
+            let reason = match r.below(7) { 0 => String::new(), k => format!("reason{}", k % 3) };
+            removed_json.push(json!({"c": [c], "reason": reason, "rparams": rp}));
         } else {
             active.push(cid);
             cons_json.push(c);
